@@ -7,7 +7,7 @@ from ..cfg import cfg_of
 from ..model import FunctionInfo, bind_args
 from ..roles import roles_of
 from ..terms import call_name, canon, conjuncts, const_num, guard_of, norm_stmt, state_key
-from .common import attr_stores, iter_stores, reaching_assignments, self_attr_of, store_base
+from .common import attr_stores, deref_expr, iter_stores, reaching_assignments, self_attr_of, store_base
 from .points import POINT_SLOTS, FilterSummary, PointAnalysis
 
 EXPLANATION = (
@@ -121,18 +121,10 @@ def check(ctx):
         else:
             ctx.fail(fs.fn, st.stmt, f"constraint stage: {st.why}", construct=f"constraint stage: {norm_stmt(st.stmt)[:70]} [{st.detail.get('mask')}]")
     if cons and all(c.ok for c in cons):
-        last = max(fs.stages, key=lambda s: s.stmt.lineno)
-        ctx.check(last.kind == "constraint", fs.fn, last.stmt, "constraint selection is the last modification of the result", f"rows are modified after the constraint selection by a {last.kind} stage", construct=f"stage after constraint: {last.kind}")
-        cfg = cfg_of(fs.fn)
-        cn = cfg.node_of(cons[0].stmt)
-        retn = cfg.node_of(fs.ret)
-        tests = [n for n in cfg.nodes if n.kind == "test" and canon(n.expr) in (f"({fs.p_cons} is not None)", f"({fs.p_cons} is None)")]
-        if not tests:
-            ctx.fail(fs.fn, cons[0].stmt, "no presence test of the constraint callable guards the constraint stage", construct="constraint stage without presence test")
-        for t in tests:
-            lab = "T" if canon(t.expr).endswith("is not None)") else "F"
-            bypass = any(retn.id in cfg.reachable(s0, avoiding={cn.id}) for s0 in cfg.succ(t.id, lab) if s0 != cn.id)
-            ctx.check(not bypass, fs.fn, cons[0].stmt, "no returning path skips the constraint selection when a callable is present", "with a constraint callable supplied, a path reaches the return without the constraint selection", construct="constraint stage bypass")
+        # must-dataflow over the filter: with a callable present every returned row passed the constraint selection, and
+        # nothing recomputes the rows afterwards (a recomputation drops the tag)
+        ctx.check("FEAS" in fs.path_tags(), fs.fn, cons[0].stmt, "no returning path skips the constraint selection when a callable is present; rows are only selected afterwards",
+                  "with a constraint callable supplied, a path reaches the return without the constraint selection (or the rows are recomputed after it)", construct="constraint stage bypass")
     for caller, call in R.filter_calls():
         tags = pa.filter_call_tags(caller, call)
         b = bind_args(fs.fn, call)
@@ -177,7 +169,7 @@ def check(ctx):
     names = {R.cons_param, f"self.{R.cons_attr}"}
     found = None
     for node in ast.walk(init.node):
-        if isinstance(node, ast.If) and node.body and isinstance(node.body[-1], ast.Raise) and _is_cons_positive_test(node.test, names, lambda a: canon(a) == "self.x0"):
+        if isinstance(node, ast.If) and node.body and isinstance(node.body[-1], ast.Raise) and _is_cons_positive_test(deref_expr(prog, init, node.test), names, lambda a: canon(a) == "self.x0"):
             exc = node.body[-1].exc
             if exc is not None and canon(exc).startswith("ValueError"):
                 found = node
@@ -208,15 +200,18 @@ def check(ctx):
     inv = R.inverse.name
     for node in ast.walk(ios.node):
         if isinstance(node, ast.If) and node.body and isinstance(node.body[-1], ast.Raise):
-            if _is_cons_positive_test(node.test, names, lambda a: isinstance(a, ast.Call) and isinstance(a.func, ast.Attribute) and a.func.attr == inv and a.args and isinstance(a.args[0], ast.Name)):
+            if _is_cons_positive_test(deref_expr(prog, ios, node.test), names, lambda a: isinstance(a, ast.Call) and isinstance(a.func, ast.Attribute) and a.func.attr == inv and a.args and isinstance(a.args[0], ast.Name)):
                 exc = node.body[-1].exc
                 if exc is not None and canon(exc).startswith("ValueError"):
                     found2 = node
     if found2 is None:
         ctx.fail(ios, ios.node, "no ValueError is raised when the start point violates the constraint after being snapped to the mesh", construct="<missing snapped start point feasibility check>")
+    elif _extra_conditions(prog, ios, found2, names):
+        ex = _extra_conditions(prog, ios, found2, names)
+        ctx.fail(ios, found2, f"the feasibility test of the snapped start point is only evaluated under the additional condition(s) {ex}: an infeasible snapped point is accepted when they fail", construct=f"snapped start point check under {' & '.join(ex)[:80]}")
     else:
         u0 = None
-        for c, pol in conjuncts(found2.test, True):
+        for c, pol in conjuncts(deref_expr(prog, ios, found2.test), True):
             for n in ast.walk(c):
                 if isinstance(n, ast.Call) and isinstance(n.func, ast.Attribute) and n.func.attr == inv and n.args and isinstance(n.args[0], ast.Name):
                     u0 = n.args[0].id
@@ -289,8 +284,50 @@ def _start_point_checked(prog, R, fn, store_stmt, value) -> bool:
     cn = {R.cons_param, f"self.{R.cons_attr}"}
     for node in ast.walk(fn.node):
         if isinstance(node, ast.If) and node.body and isinstance(node.body[-1], ast.Raise):
-            if _is_cons_positive_test(node.test, cn, lambda a: isinstance(a, ast.Call) and isinstance(a.func, ast.Attribute) and a.func.attr == R.inverse.name and a.args and canon(a.args[0]) == root):
+            if _is_cons_positive_test(deref_expr(prog, fn, node.test), cn, lambda a: isinstance(a, ast.Call) and isinstance(a.func, ast.Attribute) and a.func.attr == R.inverse.name and a.args and canon(a.args[0]) == root):
                 tn = cfg.head_of(node)
                 if cfg.dominates(tn.id, sn.id):
                     return True
+                # dominance modulo 'no constraint supplied': every path to the store that avoids the test leaves a
+                # ``<constraint> is not None`` test on its False edge (there is nothing to check on it)
+                if not cfg.can_reach(cfg.entry.id, sn.id, avoiding={tn.id}, skip_edge=lambda n_, labels: _cons_absent_edge(n_, labels, cn)):
+                    return True
+    return False
+
+
+def _extra_conditions(prog, fn, if_node, cons_names) -> list:
+    """conditions other than 'a constraint callable is present' under which the raising feasibility test is evaluated:
+    further conjuncts of its own test and enclosing guards (each of them narrows the rejection)."""
+    out = []
+    presence = {f"({n} is not None)" for n in cons_names}
+    cj = conjuncts(if_node.test, True)
+    for c, pol in cj:
+        txt = canon(c, neg=not pol)
+        if txt in presence:
+            continue
+        e = deref_expr(prog, fn, c)
+        if _is_cons_positive_test(e, cons_names, lambda a: True) and pol:
+            continue
+        out.append(txt)
+    from ..cfg import enclosing_tests
+
+    # enclosing if/while tests only: the complement of an earlier ``if c: raise`` is not a narrowing (the other side raises)
+    for t, pol in enclosing_tests(prog, fn, if_node):
+        for c, p_ in conjuncts(t, pol):
+            txt = canon(c, neg=not p_)
+            if txt not in presence:
+                out.append(txt)
+    return out
+
+
+def _cons_absent_edge(node, labels, cons_names) -> bool:
+    """CFG edge on which the optional constraint callable is known to be None."""
+    if node.kind != "test" or node.expr is None or len(labels) != 1:
+        return False
+    pol = "T" in labels
+    for c, p_ in conjuncts(node.expr, pol):
+        if isinstance(c, ast.Compare) and len(c.ops) == 1 and canon(c.left) in cons_names and isinstance(c.comparators[0], ast.Constant) and c.comparators[0].value is None:
+            is_none = isinstance(c.ops[0], ast.Is)
+            if isinstance(c.ops[0], (ast.Is, ast.IsNot)) and (is_none == p_):
+                return True
     return False
